@@ -315,9 +315,27 @@ fn long_words(run: &Run) {
     run.require_label("long-word-cases", 300);
 }
 
+/// Words whose transliteration carries a joiner (ZWJ from `rZ`, ZWNJ from `,,`) while the dictionary lists the same
+/// word without it: the transliteration and the dictionary word are two different candidates and both must be there.
+fn joiner_words(run: &Run) {
+    let sp = crate::gen::joiner_spellings(60);
+    let mut items: Vec<Case> = vec![];
+    for (i, (s, _)) in sp.iter().enumerate() {
+        for (l, t) in [("", ""), ("\"", "\""), ("{", "}."), ("", "?")] {
+            items.push(Case { lead: String::new(), word: String::new(), trail: String::new(), raw: Some(format!("{l}{s}{t}")), optidx: i });
+        }
+    }
+    run.exhaustive("joiner-words-with-a-joinerless-dictionary-twin", &items, |_| mk_local(), |c, st, lo| {
+        st.label("joiner-word-cases");
+        checked(c, lo, st)
+    });
+    run.require_label("joiner-word-cases", 100);
+}
+
 pub fn run(run: &Run) {
     commit_then_type(run);
     long_words(run);
+    joiner_words(run);
     run.sharded("one-context-toggled-off-on", 16, run.tier.pick(600, 12000), 0, strategy, mk_toggling, |c: &Case, st, lo| toggling_case(c, lo, st));
     run.require_label("toggled-context-cases", 1000);
     // exhaustive short words
